@@ -316,8 +316,29 @@ thread_local! {
     static ACTIX_LIMIT: std::cell::Cell<Option<usize>> = std::cell::Cell::new(None);
 }
 
+thread_local! {
+    /// further request headers (Content-Length announced or not, Transfer-Encoding, ...)
+    static EXTRA_HEADERS: std::cell::RefCell<Vec<(&'static str, String)>> = std::cell::RefCell::new(vec![]);
+}
+
+/// Header sets a request may carry besides the content type: what is *announced* about the body.
+fn header_sets(body_len: usize) -> Vec<Vec<(&'static str, String)>> {
+    vec![
+        vec![],
+        vec![("content-length", body_len.to_string())],
+        vec![("content-length", "0".to_string())],
+        vec![("content-length", "1000000000".to_string())],
+        vec![("transfer-encoding", "chunked".to_string())],
+        vec![("content-encoding", "gzip".to_string())],
+        vec![("content-length", body_len.to_string()), ("expect", "100-continue".to_string())],
+    ]
+}
+
 fn actix_request(content_type: Option<&str>) -> actix_web::HttpRequest {
     let mut r = actix_web::test::TestRequest::post().uri("/");
+    for (k, v) in EXTRA_HEADERS.with(|h| h.borrow().clone()) {
+        r = r.insert_header((k, v));
+    }
     if let Some(l) = ACTIX_LIMIT.with(|c| c.get()) {
         r = r.app_data(actix_web::web::JsonConfig::default().limit(l));
     }
@@ -364,6 +385,9 @@ fn actix_expected<T: Deserr<E> + std::fmt::Debug, E: Prescribed>(ct: Option<&str
 fn axum_request(ct: Option<&str>, steps: &[Step]) -> axum::extract::Request {
     let body = axum::body::Body::from_stream(scripted::<std::io::Error>(steps, io_err));
     let mut b = http::Request::builder().method("POST").uri("/");
+    for (k, v) in EXTRA_HEADERS.with(|h| h.borrow().clone()) {
+        b = b.header(k, v);
+    }
     if let Some(ct) = ct {
         b = b.header("content-type", ct);
     }
@@ -579,18 +603,30 @@ fn query_strings() -> Vec<String> {
 fn run_target<T: Deserr<E> + std::fmt::Debug + 'static, E: Prescribed>(name: &str, tier: Tier, rec: &Recorder, outcomes: &mut HashSet<u64>) {
     let (max_chunks, all_cuts) = if tier == Tier::Quick { (3, false) } else { (3, true) };
     for body in bodies(name) {
-        for (ct, limit) in CONTENT_TYPES.iter().flat_map(|c| [(*c, None), (*c, Some(16usize))]) {
+        let hsets = header_sets(body.len());
+        let combos: Vec<(Option<&str>, Option<usize>, usize)> = CONTENT_TYPES
+            .iter()
+            .flat_map(|c| [(*c, None, 0usize), (*c, Some(16usize), 0)])
+            // announced-body headers: with and without a JSON content type, default limit
+            .chain((1..hsets.len()).flat_map(|h| [(Some("application/json"), None, h), (None, None, h), (Some("text/plain"), None, h)]))
+            .collect();
+        for (ct, limit, hix) in combos {
             // a small body limit makes the framework reject longer bodies with its own (non-400) error
             if limit.is_some() && !(ct == Some("application/json") || ct.is_none()) {
                 continue;
             }
             ACTIX_LIMIT.with(|c| c.set(limit));
+            EXTRA_HEADERS.with(|h| *h.borrow_mut() = hsets[hix].clone());
             let big = body.len() > 30_000;
+            if big && hix != 0 {
+                continue;
+            }
             if big && (limit.is_some() || !(ct == Some("application/json") || ct == Some("text/plain"))) {
                 continue;
             }
             // large bodies: ≤ 2 chunks at the six principal cut points (the cost is in copying)
-            let scheds = if big { schedules(&body, 2, false) } else { schedules(&body, max_chunks, all_cuts) };
+            // announced-body header sets (quick tier): one or two chunks only
+            let scheds = if big || (hix != 0 && tier == Tier::Quick) { schedules(&body, 2, false) } else { schedules(&body, max_chunks, all_cuts) };
             let mut states = 0u64;
             let mut execs = 0u64;
             // the statement's right-hand side, under the unsplit schedule
@@ -636,12 +672,13 @@ fn run_target<T: Deserr<E> + std::fmt::Debug + 'static, E: Prescribed>(name: &st
                             property: "C20".into(),
                             subject: format!("{name} / {} / {}", std::any::type_name::<E>().rsplit("::").next().unwrap_or(""), m.split(':').next().unwrap_or("")),
                             message: format!(
-                                "{m}\n  body ({} bytes): {:?}\n  content-type: {ct:?}  actix JSON limit: {limit:?}\n  delivery schedule: {}",
+                                "{m}\n  body ({} bytes): {:?}\n  content-type: {ct:?}  other headers: {:?}  actix JSON limit: {limit:?}\n  delivery schedule: {}",
                                 body.len(),
                                 String::from_utf8_lossy(&body[..body.len().min(300)]),
+                                hsets[hix],
                                 describe(steps).chars().take(600).collect::<String>()
                             ),
-                            replay: json!({"kind": "c20", "target": name, "body_len": body.len(), "body_prefix": String::from_utf8_lossy(&body[..body.len().min(2000)]), "content_type": ct, "actix_json_limit": limit, "schedule": describe(steps).chars().take(2000).collect::<String>()}),
+                            replay: json!({"kind": "c20", "target": name, "body_len": body.len(), "body_prefix": String::from_utf8_lossy(&body[..body.len().min(2000)]), "content_type": ct, "other_headers": format!("{:?}", hsets[hix]), "actix_json_limit": limit, "schedule": describe(steps).chars().take(2000).collect::<String>()}),
                         });
                     }
                 }
